@@ -837,3 +837,65 @@ Proof. intros O C. vm_compute. repeat split. Qed.
 Lemma setvar_nil_map_panics : forall V O cs,
   call V O {| consts := cs; vars := None |} "setvar" [VStr "a"; VNum 1%float] = Panic.
 Proof. intros V O cs. destruct V; reflexivity. Qed.
+
+(* ------------------------------------------------------------------ *)
+(* complements used by Properties/C18.v                                 *)
+(* ------------------------------------------------------------------ *)
+
+Lemma base_of_none : forall bl, ~ In bl ["base64"; "base32"; "hex"] -> base_of bl = None.
+Proof.
+  intros bl H. unfold base_of.
+  assert (Hne : forall k, In k ["base64"; "base32"; "hex"] -> String.eqb bl k = false).
+  { intros k Hk. apply String.eqb_neq. intro E. subst k. auto. }
+  rewrite !Hne by (simpl; tauto). reflexivity.
+Qed.
+
+(* HASH(v, alg) is hex(H_alg(gob(v))) whatever the variant and the query context *)
+Lemma hash_value : forall V O C v a al alg buf,
+  gob_ser O v = OOk buf -> str_lower O a = OOk al -> hash_alg_of al = Some alg ->
+  call_builtin V O C BHash [v; VStr a] = Ok (VStr (hex_enc (hash_sum O alg buf))).
+Proof.
+  intros V O C v a al alg buf Hs Ha Halg. simpl. unfold hash_func.
+  rewrite guard_ok by reflexivity. simpl. rewrite Hs. simpl. rewrite Ha. simpl. rewrite Halg. reflexivity.
+Qed.
+
+Lemma hash_pure_len : forall O v a al alg,
+  codec_laws O -> hash_len_law O -> scalar v -> str_lower O a = OOk al -> hash_alg_of al = Some alg ->
+  exists h, String.length h = 2 * digest_len alg /\
+            forall V C, call_builtin V O C BHash [v; VStr a] = Ok (VStr h).
+Proof.
+  intros O v a al alg [G _] L Hv Ha Halg. destruct (G v Hv) as [buf [Hs _]].
+  exists (hex_enc (hash_sum O alg buf)). split.
+  - rewrite hex_enc_length, L. reflexivity.
+  - intros V C. apply hash_value with al; assumption.
+Qed.
+
+(* the symbolic base64/base32 codecs of the executable instance (Model/FuncsInst.v) satisfy
+   their part of [codec_laws] — the premise is not vacuous *)
+Lemma prefix_app : forall p s, String.prefix p (p ++ s) = true.
+Proof.
+  induction p as [|c p IH]; intros s; simpl; [destruct s; reflexivity|].
+  destruct (ascii_dec c c); [apply IH | congruence].
+Qed.
+
+Lemma substring_all : forall s, String.substring 0 (String.length s) s = s.
+Proof. induction s as [|c s IH]; simpl; [reflexivity | rewrite IH; reflexivity]. Qed.
+
+Lemma substring_skip : forall p s n, String.substring (String.length p) n (p ++ s) = String.substring 0 n s.
+Proof. induction p as [|c p IH]; intros s n; simpl; [reflexivity | apply IH]. Qed.
+
+Lemma app_length_str : forall p s, String.length (p ++ s) = String.length p + String.length s.
+Proof. induction p as [|c p IH]; intros s; simpl; [reflexivity | rewrite IH; reflexivity]. Qed.
+
+Lemma strip_prefix_app : forall p s, FuncsInst.strip_prefix p (p ++ s) = Some s.
+Proof.
+  intros p s. unfold FuncsInst.strip_prefix. rewrite prefix_app, substring_skip, app_length_str.
+  replace (String.length p + String.length s - String.length p) with (String.length s) by lia.
+  rewrite substring_all. reflexivity.
+Qed.
+
+Lemma sym_codec_roundtrip : forall m b, FuncsInst.sym_dec m (FuncsInst.sym_enc m b) = OOk b.
+Proof.
+  intros m b. unfold FuncsInst.sym_dec, FuncsInst.sym_enc.
+  rewrite strip_prefix_app, hex_dec_enc. reflexivity.
+Qed.
